@@ -397,10 +397,10 @@ def r4_emission(a, tier):
         'C02.R4',
         'injection-free emission: (a) the escape table of regexpp covers every character the code printer would alter - the '
         'line-boundary characters of str.splitlines() (the printer splits and re-indents lines) and TAB (trim() expands tabs); '
-        '(b) every model string interpolated into emitted code by a walk_*/_gen_* method passes repr (!r), regexpp, safe_name or '
+        '(b) every model string interpolated into an f-string anywhere in the generator module passes repr (!r), regexpp, safe_name or '
         'is a number/boolean; (c) an Optional configuration value is never pushed through a stringifying sanitizer (regexpp(None) '
         'is the pattern "None")',
-        floor=15,
+        floor=9,
     )
     # ---- (a) hazard set of the printer
     mixin = a.p.cls('tatsu.util.indent.IndentPrintMixin')
@@ -439,10 +439,8 @@ def r4_emission(a, tier):
     # ---- (b) taint of model strings in f-strings of the generator
     gen = a.p.cls(GEN)
     str_fields = {'token', 'pattern', 'literal', 'name', 'comment', 'base'}
-    safe_calls = {'regexpp', 'safe_name', 'repr', 'param_repr', 'len', 'int', 'str_int'}
-    for mname, m in gen.methods.items():
-        if not (mname.startswith('walk_') or mname.startswith('_gen') or mname.startswith('gen_')):
-            continue
+    safe_calls = {'regexpp', 'safe_name', 'repr', 'param_repr', '_param_repr', 'len', 'int', 'str_int'}
+    for m in [f for f in a.p.functions.values() if f.module is gen.module]:  # methods, module-level helpers, nested functions
         safe_locals: set[str] = set()
         unsafe_locals: dict[str, str] = {}
         for n in walk_no_defs(m.node):
